@@ -31,12 +31,13 @@ pub fn evaluate(bin: &Path, scratch: &Scratch, property: &str, cases: &[Case]) -
         all.extend(oracles_for(property, &r));
         recs.push(r);
     }
-    if property == "C19" && recs.len() == 2 {
+    if (property == "C19" || property == "C15") && recs.len() == 2 {
         let live = recs.iter().all(|r| r.iter().all(|x| !crate::oracle::sim_reserved(x.run.status)));
         if live {
             let (a, b) = (outcome_of(&recs[0]), outcome_of(&recs[1]));
             if a != b {
                 let (class, detail) = describe_outcome_diff(&a, &b);
+                let class = if property == "C15" { format!("config/depends-on-directory-listing-order/{class}") } else { class };
                 all.push(Violation { property: property.into(), class, detail, inv_index: recs[1].len() - 1 });
             }
         }
